@@ -29,6 +29,8 @@ type Engine struct {
 	localsBase  map[string][]localDecl // baseline declarations per function (rename repair)
 	renameCache map[*types.Func]*renameMaps
 	renameMu    sync.Mutex
+	varBaseOnce sync.Once
+	varBase     bool
 	callNames map[string]bool // names declared as functions or used in call position anywhere in the repo packages
 	axiomsUsed sync.Map // axiom name -> true: included in at least one query of this run
 	oncallHit sync.Map // *Clause -> true: oncall clauses that matched at least one call site
@@ -518,4 +520,17 @@ func (e *Engine) initUnit(p *packages.Package, name string) (*types.Func, error)
 		}
 	}
 	return nil, fmt.Errorf("unknown package variable %s", name)
+}
+
+// hasVarBaseline: the baseline lists package-level variables (older baselines listed functions only).
+func (e *Engine) hasVarBaseline() bool {
+	e.varBaseOnce.Do(func() {
+		for k := range e.funcsBase {
+			if strings.HasPrefix(k, "var:") {
+				e.varBase = true
+				return
+			}
+		}
+	})
+	return e.varBase
 }
